@@ -88,9 +88,26 @@ def run_once(ct, ctx):
 def replay_file(path):
     doc = json.load(open(path))
     ct = find_contract(doc['contract_module'], doc['contract_fn'], doc['params'])
+    clause = doc.get('clause')
+    if ct.params.get('_euf'):
+        # the counter-model of an EUF obligation interprets + and *, it is not an input: search
+        # seeded random inputs on the real code for the pattern the failed clause names
+        seed = int(os.environ.get('VERIF_SEED', '0') or 0)
+        tried = 0
+        for i in range(400):
+            rng = random.Random(hash((seed, 'euf', doc['obligation'], i)) & 0xffffffff)
+            ctx = BoundedCtx(RandomInputs(rng), ct)
+            status, failed, exc = run_once(ct, ctx)
+            if status == 'vacuous':
+                continue
+            tried += 1
+            if clause in failed or (doc.get('kind') == 'noexc' and status == 'exception'):
+                return {'reproduced': True, 'status': status, 'failed_clauses': failed, 'exception': exc,
+                        'search': 'seeded random search, %d inputs tried' % tried, 'inputs': dict(ctx.inputs)}
+        return {'reproduced': False, 'status': 'pass', 'failed_clauses': [], 'exception': None,
+                'search': 'seeded random search, %d inputs tried, none failed' % tried}
     ctx = dsl.ConcContext(dict(doc['inputs']), ct)
     status, failed, exc = run_once(ct, ctx)
-    clause = doc.get('clause')
     reproduced = False
     if doc.get('kind') == 'noexc':
         reproduced = status == 'exception'
